@@ -362,7 +362,9 @@ class ErrorHandler:
                     index_in_tag_end = start + error_object['index_in_tag_end']
                 new_end = index_in_tag_end
             error_object['char_index'], error_object['char_index_end'] = new_start, new_end
-            error_object['message'] += f"  Problem spans string indexes: {new_start}, {new_end}"
+            # An issue can pass through here more than once: replace an earlier location suffix instead of appending.
+            marker = "  Problem spans string indexes: "
+            error_object['message'] = error_object['message'].split(marker)[0] + f"{marker}{new_start}, {new_end}"
 
     @hed_error("Unknown")
     def val_error_unknown(*args, **kwargs):
